@@ -10,16 +10,17 @@ import (
 )
 
 // Value is a VM value. Dynamic kinds:
-//   IntV, BoolV, FloatV       scalars (concrete or SMT term)
-//   string / SymStr           strings
-//   *Value                    pointers (nil pointer = (*Value)(nil))
-//   Struct, Array             aggregates (by value; copied on load/store)
-//   []Value                   slices (nil slice = []Value(nil)); *SymSlice symbolic-length slices
-//   *MapV, *ChanV             reference types (nil pointer = nil map/chan)
-//   Iface                     interfaces
-//   *ssa.Function,*Closure,*ssa.Builtin   functions ((*ssa.Function)(nil) = nil func)
-//   Tuple                     multi-results
-//   Poison                    value that could not be computed (lenient std-lib init)
+//
+//	IntV, BoolV, FloatV       scalars (concrete or SMT term)
+//	string / SymStr           strings
+//	*Value                    pointers (nil pointer = (*Value)(nil))
+//	Struct, Array             aggregates (by value; copied on load/store)
+//	[]Value                   slices (nil slice = []Value(nil)); *SymSlice symbolic-length slices
+//	*MapV, *ChanV             reference types (nil pointer = nil map/chan)
+//	Iface                     interfaces
+//	*ssa.Function,*Closure,*ssa.Builtin   functions ((*ssa.Function)(nil) = nil func)
+//	Tuple                     multi-results
+//	Poison                    value that could not be computed (lenient std-lib init)
 type Value interface{}
 
 type IntV struct {
@@ -350,6 +351,7 @@ type targetPanic struct {
 	v    Value
 	kind string // "index", "nil", "explicit", ...
 	pos  string
+	fn   string
 }
 
 func valStr(v Value) string {
